@@ -141,7 +141,7 @@ def run_engine_cached(engine_name, fn, ctx):
     if r.machinery_error is None:
         tmp = path + ".tmp%d" % os.getpid()
         with open(tmp, "w") as f:
-            json.dump(r.to_json(), f)
+            json.dump(r.to_json(), f, default=_jsonable)
         os.replace(tmp, path)
         # keep the cache small
         ents = sorted((os.path.getmtime(os.path.join(cdir, e)), e) for e in os.listdir(cdir))
